@@ -965,7 +965,7 @@ def run_e2e(ctx, g, opt, dtype, cfg):
     except Exception as ex:
         out2, meta["raised2"] = "raise", repr(ex)[:300]
     x1 = model.snapshot()
-    e = dict(act="e2e", opt=opt, m=ev["m"], out=ev["out"], out2=out2, layout=ev["layout"], mn=ev["mn"], mx=ev["mx"],
+    e = dict(act="e2e", opt=opt, solver=cfg.get("solver", "default"), m=ev["m"], out=ev["out"], out2=out2, layout=ev["layout"], mn=ev["mn"], mx=ev["mx"],
              sys=(ev["trials"][0] if ev["trials"] else dict(lam=[0, 0], A=[], b=[], dx=[], seen=[])),
              nulls=[], ne_ulps=0, null_ulps=0, res_ulps=0)
     if ev["out"] != "ok" or out2 != "ok" or not ev["trials"]:
